@@ -776,6 +776,18 @@ class _CacheUnit(Unit):
             S.ctx.ghost['forced_outcome'] = self._outcome
         name = self.mod_name(inp)
         d = SymDict()
+        # the cache may also hold an entry for any OTHER module name (left there by an earlier decode): a correct look-up
+        # never uses it
+        self._other = S.choice("other_cached_entry", ['no', 'module', 'none']) if S.symbolic else 'no'
+        if self._other != 'no':
+            other = S.opaque_str("other_cached_name")
+            S.assume(Not(Eq(other, name)))
+            if self._other == 'module':
+                S.assume(Not(mod_absent(other)))
+                d.items.append([other, OpaqueVal(mod_of(other), 'module')])
+            else:
+                S.assume(mod_absent(other))
+                d.items.append([other, None])
         if self._cache == 'module':
             d.items.append([name, OpaqueVal(mod_of(name), 'module')])
         elif self._cache == 'none':
